@@ -335,17 +335,6 @@ def run_shard(shard, rec):
                          ITER_STREAM_LINGER=float(shard["linger"]), THREADPOOL_SIZE=20)
     try:
         fx.register(make_service(P), "src")
-        if not shard["streaming"]:
-            for k in REQUIRED_REACH:
-                if k != "streaming_disabled_ok":
-                    rec.count(k)
-        else:
-            rec.count("streaming_disabled_ok")
-            if not shard["linger"]:
-                rec.count("reconnect_continues")
-                rec.count("linger_expired")
-            if not shard["lifetime"]:
-                rec.count("lifetime_expired")
         for h in range(shard["histories"]):
             if rec.should_stop(8):
                 break
